@@ -29,9 +29,9 @@ SPEC = dict(
                  "--ignore-vcs-tag is the documented opt-out: only 'tags do not influence the start' is asserted there",
                  "day-of-year 366 in a non-leap year is not generated (the statement does not say whether it matches)"],
     required=["fake_runs", "real_git_runs", "scope:default", "scope:global", "scope:branch", "ignore_runs",
-              "impossible_date_tags", "tie_cases", "uniqueness_checked", "no_matching_tag_cases", "cli_tag_scope_overrides", "show_pep440_line_checked", "fetch_failure_cases"],
+              "impossible_date_tags", "tie_cases", "uniqueness_checked", "no_matching_tag_cases", "cli_tag_scope_overrides", "show_pep440_line_checked", "fetch_failure_cases", "legacy_pattern_runs"],
     anchors=[("cli", "_parse_version_tags"), ("cli", "get_latest_vcs_version_tag"), ("cli", "_update_cfg_from_vcs"),
-             ("vcs", "get_tags"), ("v2version", "is_valid")],
+             ("vcs", "get_tags"), ("v2version", "is_valid"), ("v1version", "is_valid")],
 )
 
 
@@ -39,6 +39,8 @@ def cases(ctx):
     R = ctx.rng
     for _ in range(ctx.size(1600, 60000)):
         yield {"kind": "fake", "seed": R.getrandbits(48)}
+    for _ in range(ctx.size(240, 6000)):
+        yield {"kind": "legacy", "seed": R.getrandbits(48)}
     for _ in range(ctx.size(160, 3000)):
         yield {"kind": "real", "seed": R.getrandbits(48)}
 
@@ -319,7 +321,95 @@ def run_real(ctx, case):
         harness.rm_dir(d)
 
 
+def run_legacy(ctx, case):
+    """legacy {..} version patterns: the same start-version rule, tags recognised by the legacy engine"""
+    from bvmon import ref_v1
+    R = random.Random(case["seed"])
+    p = R.choice(["{pycalver}", "{semver}", "v{year}{month}{build}{release}", "{year}.{month}.{dom}"])
+    ast = ref_v1.parse_pattern(p)
+
+    def mk():
+        d0 = dt.date(2001, 1, 1) + dt.timedelta(R.randint(0, 30000))
+        names = ref_v1.parts_in(ast)
+        tag = R.choice(ref_v1.TAGS) if any(n in names for n in ("release", "tag")) else "final"
+        st = ref_v1.state_from_date(d0, R.choice(["1001", "1002", "1999", "22000", "0999"]), tag, R.randint(0, 12),
+                                    R.randint(0, 12), R.randint(0, 12))
+        return ref_v1.render(ast, st)
+
+    cur = mk()
+    tags = [(mk(), "valid") for _ in range(R.choice([0, 1, 2, 4, 8]))]
+    tags += [(t, "junk") for t in R.sample(["junk", "v1", "1.2", "release-3", "2021.13.40", "v202113.1001", "1.2.3.4"],
+                                          R.randint(0, 3))]
+    # tags that only START like a version of the pattern (a valid version followed by other text)
+    tags += [(mk() + R.choice(["junk", "x", "-extra", ".1", "+local", " "]).rstrip(), "valid-prefix-only")
+             for _ in range(R.choice([0, 0, 1, 2]))]
+    if p == "{year}.{month}.{dom}":
+        tags += [(t, "impossible-date") for t in R.sample(["2021.02.30", "2023.04.31", "2022.02.29"], R.randint(0, 2))]
+    seen, tl = set(), []
+    for t, k in tags:
+        if t not in seen:
+            seen.add(t)
+            tl.append((t, k))
+    R.shuffle(tl)
+    tags_all = [t for t, _k in tl]
+    tags_merged = [t for t in tags_all if R.random() < 0.6]
+    scope = R.choice(["default", "global", "branch"])
+
+    def legacy_matches(t):
+        raw = ref_v1.parse(ast, t)
+        if raw is None:
+            return False
+        vals = {ref_v1.FIELD[n]: x for n, x in raw}
+        try:
+            if "year" in vals and "month" in vals and "dom" in vals:
+                dt.date(int(vals["year"]), int(vals["month"]), int(vals["dom"]))
+        except ValueError:
+            return False
+        return True
+
+    pool = tags_merged if scope == "branch" else tags_all
+    m = [t for t in pool if legacy_matches(t)]
+    if any(vkey(t) is None for t in m) or vkey(cur) is None:
+        raise harness.Skip("non-pep440-legacy-version")
+    if not m:
+        acceptable = {cur}
+    else:
+        best = max(vkey(t) for t in m)
+        top = {t for t in m if vkey(t) == best}
+        if scope == "default":
+            acceptable = {cur} if best < vkey(cur) else (top | {cur} if best == vkey(cur) else top)
+        else:
+            acceptable = top
+    d = harness.new_project(make_project(p, cur, scope))
+    fake = harness.FakeVCS(d, "git")
+    try:
+        fake.set_out("tag-list", "".join(t + "\n" for t in tags_all))
+        fake.set_out("tag-merged", "".join(t + "\n" for t in tags_merged))
+        res = harness.invoke(["show", "--no-fetch"], cwd=d, env=fake.env)
+        ctx.count("legacy_pattern_runs")
+        ctx.count("scope:" + scope)
+        ctx.evaluated(("legacy", p, scope, min(len(m), 3), tuple(sorted({k for _t, k in tl} - {"valid"}))),
+                      sample={"pattern": p, "config_version": cur, "tags_all": tags_all, "scope": scope})
+        desc = {"pattern": p, "config": cur, "tags": tags_all, "merged": tags_merged, "scope": scope, "expected": sorted(acceptable)}
+        if res.exit_code != 0 or res.crash:
+            ctx.violation("other:show_fails_because_of_tags", f"legacy pattern {p!r}: show exits {res.exit_code}: "
+                          f"{res.crash or res.errors()[-2:]}", case=case, observed=desc)
+            return
+        got = res.stdout_value("Current Version: ")
+        if got not in acceptable:
+            kinds_by_tag = dict(tl)
+            cls = "legacy_tag_matched_by_prefix_only" if kinds_by_tag.get(got) == "valid-prefix-only" else "other:wrong_start_version"
+            ctx.violation(cls, f"legacy pattern {p!r}: show reports {got!r}, expected one of "
+                          f"{sorted(acceptable)} (scope {scope}, config {cur!r}, tags {tags_all}, merged {tags_merged})",
+                          case=case, observed=desc)
+    finally:
+        harness.rm_dir(d)
+        fake.destroy()
+
+
 def run_case(ctx, case):
+    if case["kind"] == "legacy":
+        return run_legacy(ctx, case)
     if case["kind"] == "fake":
         return run_fake(ctx, case)
     return run_real(ctx, case)
